@@ -144,3 +144,53 @@ func VerifC09TwoOwners() {
 	vCoverIf(y1 == x1 && y2 < x2 && u1 <= e && u2 <= e, "one-owner-locked-everything")
 	vCoverIf(u1 <= e && u2 > e, "only-the-first-lock-expired")
 }
+
+// C09 with a credit to a LIVE lock account: p locks y1 (0 included) until u1; before the tick the lock account
+// is credited with t (param 1: 0 a public transfer signed by q, 1 the Alphabet's transferX from q, 2 a mint).
+// The lock stays a lock: the first tick with epoch >= until returns exactly the remaining balance (lock and
+// credit) to p and the lock account disappears; earlier ticks change nothing; a later tick returns nothing more.
+func VerifC09TopUp() {
+	viaNetmap := vParam(0) == 1
+	kind := vParam(1)
+	deployBalanceWorld()
+	p, q, l1 := vAcct("p"), vAcct("q"), vAcct("L1")
+	x1, x2, y1, u1, t, e, e2 := vInt("x1"), vInt("x2"), vInt("y1"), vInt("u1"), vInt("t"), vInt("e"), vInt("e2")
+	vAssume(x1 >= 1 && x1 <= 1000000 && x2 >= 1 && x2 <= 1000000 && y1 >= 0 && y1 <= x1 && t >= 0 && t <= x2)
+	vAssume(u1 >= 1 && u1 <= 300 && e >= 1 && e <= 300 && e2 > e && e2 <= 301)
+	vAssume(mint(p, x1))
+	vAssume(mint(q, x2))
+	vAssume(lockFunds(1, p, l1, y1, u1))
+	minted := 0
+	switch kind {
+	case 0:
+		vSign(q, true)
+		ok, r := vInvoke("balance", "transfer", q, l1, t, nil)
+		vAssume(ok && r.(bool))
+	case 1:
+		vSign(vAlphabetAcct(), true)
+		ok, _ := vInvoke("balance", "transferX", q, l1, t, []byte{7})
+		vAssume(ok)
+	default:
+		vAssume(mint(l1, t))
+		minted = t
+	}
+	spent := t - minted // what q paid
+	vAssert(balOf(l1) == y1+t && balOf(q) == x2-spent && balOf(p) == x1-y1, "C09/a-credit-to-a-lock-account-adds-to-it")
+	sup := supply()
+	vAssume(tick(viaNetmap, e))
+	if u1 <= e {
+		vCoverIf(t > 0 && y1 > 0, "credited-lock-released")
+		vAssert(balOf(l1) == 0 && balOf(p) == x1+t, "C09/released-at-first-tick-with-epoch>=until")
+	} else {
+		vAssert(balOf(l1) == y1+t && balOf(p) == x1-y1, "C09/not-released-before-until")
+	}
+	vAssert(balOf(q) == x2-spent && supply() == sup, "C09/ticks-do-not-change-supply")
+	vAssume(tick(viaNetmap, e2))
+	if u1 <= e2 {
+		vCoverIf(u1 > e && t > 0, "credited-lock-released-by-the-second-tick")
+		vAssert(balOf(l1) == 0 && balOf(p) == x1+t, "C09/unlock-never-happens-twice")
+	} else {
+		vAssert(balOf(l1) == y1+t && balOf(p) == x1-y1, "C09/not-released-before-until")
+	}
+	vAssert(balOf(q) == x2-spent && supply() == sup, "C09/ticks-do-not-change-supply")
+}
